@@ -141,7 +141,7 @@ def main() -> int:
     a = ap.parse_args()
     entries = CORPUS
     if a.only:
-        entries = [e for e in entries if a.only in e['id']]
+        entries = [e for e in entries if any(x in e['id'] for x in a.only.split(','))]
     if a.prop:
         entries = [e for e in entries if a.prop in e['props']]
     res = run_entries(entries, a.repo, a.j, a.v)
